@@ -18,7 +18,8 @@ Record RegInv (L : list orec) (r : reg) : Prop := {
   i_edges_nodes : forall s t f, In (s, t, f) (edges r) -> In s (map w_idx (nodes r)) /\ In t (map w_idx (nodes r));
   (* the relation index is exactly the set of current edges *)
   i_rel_edges : forall e, In e (rel_index r) <-> In e (edges r);
-  i_rel_nodup : NoDup (rel_index r) }.
+  i_rel_nodup : NoDup (rel_index r);
+  i_edges_nodup : NoDup (edges r) }.
 
 (* existing instances: identities and addresses are unique *)
 Record WorldOk (L : list orec) : Prop := {
@@ -30,7 +31,7 @@ Proof. constructor; simpl; try constructor; try tauto; intros; tauto. Qed.
 
 Lemma RegInv_sub L L' r : (forall x, In x L' -> In x L) -> RegInv L r -> RegInv L' r.
 Proof.
-  intros Hs [H1 H2 H3 H4 H5 H6 H7 H8 H9 H10]. constructor; eauto.
+  intros Hs [H1 H2 H3 H4 H5 H6 H7 H8 H9 H10 H11]. constructor; eauto.
 Qed.
 
 (* ------------------------------------------------------------------ add_node *)
@@ -42,7 +43,7 @@ Lemma add_node_inv L L' r x i :
   ~ In (o_id x) (map w_obj (wl r)) ->
   RegInv L' (add_node r (W (o_id x) (o_cls x) (o_pyid x) i)).
 Proof.
-  intros [H1 H2 H3 H4 H5 H6 H7 H8 H9 H10] HL [Wi Wp] Hi Ho.
+  intros [H1 H2 H3 H4 H5 H6 H7 H8 H9 H10 H11] HL [Wi Wp] Hi Ho.
   set (w := W (o_id x) (o_cls x) (o_pyid x) i).
   assert (HxL : In x L') by (apply HL; auto).
   assert (Hifree : ~ In i (map w_idx (nodes r))).
@@ -71,6 +72,7 @@ Proof.
   - intros s t f Hin. rewrite map_app, !in_app_iff. destruct (H8 _ _ _ Hin). auto.
   - auto.
   - auto.
+  - auto.
 Qed.
 
 (* ------------------------------------------------------------------ remove_node *)
@@ -85,7 +87,7 @@ Qed.
 Lemma remove_node_inv L r w :
   RegInv L r -> In w (nodes r) -> mem_obj (w_obj w) L = false -> RegInv L (remove_node r w).
 Proof.
-  intros [H1 H2 H3 H4 H5 H6 H7 H8 H9 H10] Hw Hdead.
+  intros [H1 H2 H3 H4 H5 H6 H7 H8 H9 H10 H11] Hw Hdead.
   assert (Hwl : In w (wl r)) by now apply H3.
   assert (Hne : forall w', In w' (wl r) -> (w' <> w <-> w_obj w' <> w_obj w)).
   { intros w' Hw'. split; intros A B; apply A; [eapply NoDup_map_inj with (f := w_obj); eauto|now subst]. }
@@ -132,6 +134,7 @@ Proof.
       apply existsb_edge. apply filter_In. auto.
     + intros [A B]. split; auto. apply negb_true_iff in B. apply negb_true_iff.
       destruct (existsb _ _) eqn:X; auto. apply existsb_edge in X. apply filter_In in X. destruct X; congruence.
+  - now apply NoDup_filter.
   - now apply NoDup_filter.
 Qed.
 
@@ -196,10 +199,11 @@ Lemma add_relation_inv L r e : RegInv L r ->
   RegInv L (fst (add_relation r e)).
 Proof.
   intros Hr He. unfold add_relation. destruct (existsb (edge_eqb e) (rel_index r)) eqn:X; simpl; auto.
-  destruct Hr as [H1 H2 H3 H4 H5 H6 H7 H8 H9 H10]. constructor; simpl; auto.
+  destruct Hr as [H1 H2 H3 H4 H5 H6 H7 H8 H9 H10 H11]. constructor; simpl; auto.
   - intros s t f Hin. apply in_app_iff in Hin. destruct Hin as [Hin|[E|[]]]; [apply (H8 _ _ _ Hin)|rewrite E in He; exact He].
   - intros e'. rewrite in_app_iff. simpl. rewrite H9. tauto.
   - constructor; auto. intro Hin. apply existsb_edge in Hin. congruence.
+  - apply NoDup_snoc; auto. intro Hin. apply H9 in Hin. apply existsb_edge in Hin. congruence.
 Qed.
 
 Lemma add_relation_new r e : RegInv (@nil orec) r \/ True -> snd (add_relation r e) = negb (existsb (edge_eqb e) (rel_index r)).
